@@ -26,16 +26,17 @@ type PropConfig struct {
 }
 
 type Options struct {
-	RepoDir  string
-	VerifDir string
-	Tier     string
-	Seed     int
-	Scratch  string
-	Overlay  map[string][]byte
-	KeepSMT  bool
-	Verbose  bool
-	OnlyFn   string
-	Replay   bool
+	RepoDir      string
+	VerifDir     string
+	Tier         string
+	Seed         int
+	Scratch      string
+	Overlay      map[string][]byte
+	OverlayFiles map[string]string // same overlay as file paths (for go test -overlay)
+	KeepSMT      bool
+	Verbose      bool
+	OnlyFn       string
+	Replay       bool
 }
 
 var PropConfigs = map[string]*PropConfig{}
@@ -231,10 +232,15 @@ func Finish(rep *Report, opts *Options) int {
 		violations++
 		path := writeReplay(rep, o, opts)
 		suffix := ""
-		if o.FailRes == nil || o.FailRes.Status != "sat" || o.Extra("replayed") != "yes" {
-			if o.FailRes == nil || o.FailRes.Status != "sat" {
-				suffix = " no-failing-input-found"
-			}
+		switch {
+		case o.FailRes == nil || o.FailRes.Status != "sat":
+			suffix = " no-failing-input-found"
+		case o.Replayed && o.Confirmed:
+			suffix = " replayed=confirmed-on-real-code"
+		case o.Replayed:
+			suffix = " replayed=not-reproduced"
+		default:
+			suffix = " replayed=model-only"
 		}
 		fmt.Printf("VIOLATION property=%s replay=%s obligation=%s status=%s%s\n", id, path, o.Name, o.Status, suffix)
 	}
@@ -322,6 +328,13 @@ func writeReplay(rep *Report, o *ObligResult, opts *Options) string {
 		doc["solver_status"] = o.FailRes.Status
 		doc["solver_output"] = truncate(o.FailRes.Output, 20000)
 		doc["model"] = truncate(o.FailRes.Model, 20000)
+		if o.FailRes.Status == "sat" && o.Fail != nil && o.Fail.Replay != nil {
+			rd, confirmed := o.Fail.Replay(o.FailRes.Model, opts)
+			doc["replay_on_real_code"] = rd
+			doc["replay_confirmed"] = confirmed
+			o.Replayed = true
+			o.Confirmed = confirmed
+		}
 		if o.FailRes.File != "" {
 			if q, err := os.ReadFile(o.FailRes.File); err == nil {
 				doc["smt_query"] = truncate(string(q), 200000)
